@@ -499,12 +499,48 @@ def c10(tier):
     return out
 
 
+def c16(tier):
+    out = []
+    uw = node_unwind(2)
+    uw.update(lss_unwind())
+    uw.update({'COTmrDelete': 5, 'COTmrInsert': 5, 'COTmrRemove': 6, 'COTmrProcess': 5, 'COTmrReset': 5, 'CoVerifTmrPool': 5, 'COTmrClear': 4,
+               'COSyncInit': 4, 'COSyncHandler': 4, 'COSyncUpdate': 4, 'COTPdoGetMap': 10, 'COTPdoTx': 10, 'CORPdoReset': 10, 'CORPdoGetMap': 10, 'COEmcyReset': 6})
+    for op in (0, 1):
+        for freq in (100, 1000, 1000000):
+            defs = dict(NODE_DEFS)
+            defs.update({'OP': op, 'OD_FREQ': freq, 'CO_VERIF_SDO_BUF_SEG': 2})
+            out.append(Inst('sync_cfg_%s_f%d' % ('1005' if op == 0 else '1006', freq), 'sync_step.c', defs, unwind=18, unwindset=uw, objbits=10,
+                            harness_only=['OP', 'MODE'], family='sync_step',
+                            bounds='SDO write to %s: stored 1005h (11-bit id, bit 30), stored 1006h and written value symbolic (period <= 6553500 us), stale node error symbolic, timer frequency %d Hz' % (
+                                '1005h' if op == 0 else '1006h', freq)))
+    defs = dict(NODE_DEFS)
+    defs.update({'OP': 2, 'CO_VERIF_SDO_BUF_SEG': 2})
+    out.append(Inst('sync_match', 'sync_step.c', defs, unwind=18, unwindset=uw, objbits=10, harness_only=['OP', 'MODE'], family='sync_step',
+                    bounds='COSyncUpdate: cached 1005h (11-bit id, flag bits) and frame identifier (29 bit) symbolic'))
+    for mode in (2, 3, 4):
+        defs = dict(NODE_DEFS)
+        defs.update({'OP': 3, 'MODE': mode, 'T1': 254, 'CO_VERIF_SDO_BUF_SEG': 2, 'OD_TPDO': 1, 'CO_TPDO_N': 1})
+        out.append(Inst('sync_count_%s' % NMT_MODE[mode], 'sync_step.c', defs, unwind=18, unwindset=uw, objbits=10, harness_only=['OP', 'MODE', 'T1'],
+                        family='sync_step',
+                        bounds='one SYNC in mode %s, one synchronous TPDO: transmission type 1..240 and SYNC counter symbolic (inductive step over SYNC sequences)' % NMT_MODE[mode]))
+    # producer timing: sequences with SYNC checking on
+    seqs = ['XTTTT', 'YXTTT', 'XYTTT', 'XTYTT', 'XTXTT', 'XNTST', 'XSTNT', 'XRTTT', 'XTRTT', 'YXRTT', 'XWTTT', 'NXGTT'] if tier == 'quick' else \
+           ['XTTTT', 'YXTTT', 'XYTTT', 'XTYTT', 'XTXTT', 'XNTST', 'XSTNT', 'XRTTT', 'XTRTT', 'YXRTT', 'XWTTT', 'NXGTT', 'YXTTTT', 'XYTYTT', 'XTTXTT', 'YXTRTT', 'XTTYTT']
+    for sq in seqs:
+        for vs in ((1, 1, 1, 1, 1, 1, 1), (2, 1, 1, 2, 1, 1, 1), (1, 2, 3, 1, 2, 1, 1)):
+            i = hbp_inst(sq, 2, sync=True, vals=vs)
+            i.name = 'syncprod_' + i.name[4:]
+            out.append(i)
+    return out
+
+
 def c01(tier):
     return sdo_step_insts(tier) + sdo_two_servers(tier)
 
 
 PROPS = {
     'C01': c01,
+    'C16': c16,
     'C10': c10,
     'C11': c11,
     'C18': c18,
